@@ -1797,6 +1797,8 @@ class sptensor:
             return self.copy()
         idx = np.where(shapeArray > 1)[0]
         if idx.size == 0:
+            if self.vals.size == 0:
+                return 0.0
             return self.vals.item()
         siz = tuple(shapeArray[idx])
         if self.vals.size == 0:
